@@ -270,6 +270,49 @@ def judge_c07(model, L, out, res):
                         which = {'exp': e, 'lo': fs(lo), 'hi': fs(hi), 'value': str(val)}
                         break
                 res['fails'].append({'ob': 'subexp-range', 'cause': 'other', 'which': which, 'point': zq.point_json(pt)})
+    judge_c07_lowering(model, out, res)
+
+
+def judge_c07_lowering(model, out, res):
+    """the ranges the LOWERING consults (a real Linearizer context: analysis, publication of the ranges into the domain,
+    reconciliation of the analyzer with what that domain can enforce) must hold on the whole box of PUBLISHED variable
+    ranges - including the integrality / 0-1 typing the published domain states - because the published domain is all
+    the emitted model enforces about the variables"""
+    low = out.get('lowering')
+    if not isinstance(low, dict) or 'ranges' not in low:
+        if isinstance(low, dict) and low.get('panic'):
+            res['fails'].append({'ob': 'lowering-range', 'cause': 'panic', 'point': None})
+        return
+    srcn = [v[0] for v in model['vars']]
+    env = sem.mk_env(srcn)
+    xs = {n: env[n] for n in srcn}
+    pub = dict((n, d) for n, d in low['published'])
+    box = [sem.dom_c(env[n], pub[n]) for n in srcn if n in pub]
+    subs = all_subexps(model)
+    outside, kept = [], []
+    for e, (lo, hi) in zip(subs, low['ranges']):
+        lo, hi = float(lo), float(hi)
+        if lo != lo or hi != hi:
+            res['fails'].append({'ob': 'lowering-range', 'cause': 'nan-bound', 'exp': e, 'point': None})
+            continue
+        if sem.has_var_division(e):
+            continue
+        kept.append((e, lo, hi))
+        outside.append(z3.And(sem.defined(e, env), z3.Not(box_c(sem.val(e, env), lo, hi))))
+    if not outside:
+        return
+    v, pt = ask(res, 'lowering', box + [z3.Or(outside)], xs)
+    if v == 'sat':
+        which = None
+        for e, lo, hi in kept:
+            try:
+                val = sem.pyval(e, pt)
+            except ZeroDivisionError:
+                continue
+            if (lo != -sem.INF and val < Fraction(lo) - margin_of(lo)) or (hi != sem.INF and val > Fraction(hi) + margin_of(hi)):
+                which = {'exp': e, 'lo': fs(lo), 'hi': fs(hi), 'value': str(val)}
+                break
+        res['fails'].append({'ob': 'lowering-range', 'cause': 'other', 'which': which, 'published': low['published'], 'point': zq.point_json(pt)})
 
 
 def margin_of(b):
@@ -474,6 +517,22 @@ def replay_fail(model, fail):
         sl, vl = optimize(lin.lin_c(L, env, EPS), lin.lin_obj(L, env), d)
         differs = so != sl or (so == 'ok' and abs(vo - vl) > OPT_TOL * (1 + abs(vo)))
         return (differs and 'unknown' not in (so, sl)), {'source': [so, str(vo)], 'linear': [sl, str(vl)]}
+    if ob == 'lowering-range':
+        # recompute with the real code; evaluate the sub-expression exactly at the point; the point must lie in the
+        # published box (typing included)
+        out = run_driver(compile_jobs([{'model': model}]))[0]
+        low = out.get('lowering') or {}
+        pub = dict((n, d) for n, d in low.get('published', []))
+        inbox = all(sem.py_dom(Fraction(pt[n]), pub[n], 0) for n in pt if n in pub)
+        for e, (lo, hi) in zip(all_subexps(model), low.get('ranges') or []):
+            try:
+                val = sem.pyval(e, pt)
+            except ZeroDivisionError:
+                continue
+            lo, hi = float(lo), float(hi)
+            if (lo != -sem.INF and val < Fraction(lo) - margin_of(lo)) or (hi != sem.INF and val > Fraction(hi) + margin_of(hi)):
+                return inbox, {'exp': e, 'lowering_range': [fs(lo), fs(hi)], 'value': str(val), 'published': low.get('published'), 'point_in_published_box': inbox}
+        return False, {'why': 'no sub-expression out of its lowering range on replay'}
     if ob in ('published-range', 'derived-range', 'subexp-range'):
         out = run_driver(compile_jobs([{'model': model}]))[0]
         if ob == 'subexp-range':
@@ -547,6 +606,7 @@ def family(prop, t, sd):
         items += integer_rounding_family(t)
         items += ill_conditioned_family(t)
     items += gen.diverging_family()
+    items += hollow_integer_family()
     items += gen.nested_family()
     lim = os.environ.get('VERIF_LIMIT')
     if lim:
@@ -578,6 +638,34 @@ def integer_rounding_family(t):
                         doms = {'x': D('Int', -6, 6), 'y': D('Int', -9, 9)}
                         chain = [gen.row(lhs, cmp_, rhs2), gen.row(['-', gen.var('y'), gen.var('x')], '>=', gen.num(0))]
                         out.append({'fam': 'Mint-round', 'profile': 'nondyadic', 'model': gen.mk_model('min', ['+', gen.var('x'), gen.var('y')], chain, doms)})
+    return out
+
+
+def hollow_integer_family():
+    """an integer variable whose propagated interval is non-empty but holds no integer (10x >= 4, 10x <= 6; 2x = 1):
+    the published domain keeps the declared range (the rows report the infeasibility to the solver), so whatever the
+    lowering assumes about the variable afterwards - inside max / min / abs, in products with constants - has to hold
+    on the declared range, not on the hollow interval"""
+    out = []
+    D = gen.D
+    x, y = gen.var('x'), gen.var('y')
+    hollow = [
+        [gen.row(['*', gen.num(10), x], '>=', gen.num(4)), gen.row(['*', gen.num(10), x], '<=', gen.num(6))],
+        [gen.row(['*', gen.num(2), x], '=', gen.num(1))],
+        [gen.row(['*', gen.num(3), x], '>=', gen.num(4)), gen.row(['*', gen.num(3), x], '<=', gen.num(5))],
+        [gen.row(['*', gen.num(-4), x], '>=', gen.num(5)), gen.row(['*', gen.num(-4), x], '<=', gen.num(7))],
+    ]
+    uses = [['max', [x, y]], ['min', [x, y]], ['abs', x], ['abs', ['-', x, y]], ['max', [['*', gen.num(2), x], y]], ['neg', ['min', [x, gen.num(3)]]]]
+    domsets = [{'x': D('Int', 0, 10), 'y': D('Real', 0, 4)}, {'x': D('Int', -10, 10), 'y': D('Int', -3, 3)}, {'x': D('Int', -5, 0), 'y': D('NNReal', 0, 'inf')}]
+    for rows in hollow:
+        for u in uses:
+            for doms in domsets:
+                for cmp_, k in (('<=', 3), ('>=', 1), ('=', 2)):
+                    cons = [dict(r) for r in rows] + [gen.row(u, cmp_, gen.num(k))]
+                    out.append({'fam': 'Mhollow', 'profile': 'hollow-int', 'model': gen.mk_model('min', ['+', x, y], cons, dict(doms))})
+                cons = [dict(r) for r in rows]
+                out.append({'fam': 'Mhollow', 'profile': 'hollow-int', 'model': gen.mk_model('min', u, cons, dict(doms))})
+                out.append({'fam': 'Mhollow', 'profile': 'hollow-int', 'model': gen.mk_model('max', u, cons, dict(doms))})
     return out
 
 
